@@ -31,6 +31,8 @@ Section Batch.
   Variable A : analysis.
   Variable fx : fixes.
   Hypothesis HA : analysis_ok A.
+  Variable mem : file -> bool.
+  Hypothesis Hmem : forall f, in_dir A f = true -> mem f = true.
   Local Notation txt := (text A).
 
   Definition is_cm (e : file * kind) : bool := match snd e with KChanged | KCreated => true | KDeleted => false end.
@@ -298,14 +300,14 @@ Section Batch.
   Qed.
 
   Lemma he_batch dk0 dk (p : proj A) evs :
-    good_proj A dk0 p -> batch_ok dk0 dk evs ->
+    good_proj A mem dk0 p -> batch_ok dk0 dk evs ->
     (forall f k t, In (f, k) evs -> aget dk f = Some t -> empty_hit_p A fx p f t = false) ->
     let r := handle_events A fx dk p evs in
-    (nostale_p A (fst r) \/ idx_sub A (fst r) -> good_proj A dk (fst r)) /\
+    (nostale_p A (fst r) \/ idx_sub A (fst r) -> good_proj A mem dk (fst r)) /\
     (snd r = false -> forall g, errs_of A (fst r) g = errs_of A p g).
   Proof.
     intros G B Hemp. cbn zeta. rewrite handle_events_eq. cbn zeta.
-    assert (Hs0 : ssorted (p_files p)) by (rewrite (gp_files _ _ _ G); apply dfiles_sorted).
+    assert (Hs0 : ssorted (p_files p)) by (rewrite (gp_files _ _ _ _ G); apply dfiles_sorted).
     pose proof (classify_spec (p_tincl p) evs p h0 (b_nodup _ _ _ B) (b_indir _ _ _ B) Hs0) as CS. cbn zeta in CS.
     set (ph := fold_left (classify_one A fx (p_tincl p)) evs (p, h0)) in *.
     set (p1 := fst ph) in *. set (h := snd ph) in *.
@@ -313,10 +315,10 @@ Section Batch.
     cbn [h0 h_again h_refer h_all h_third app orb] in C8, C9, C10, C11.
     assert (Hone : forall g k1 k2, In (g, k1) evs -> In (g, k2) evs -> k1 = k2) by (intros; eapply nodup_one_kind; [apply (b_nodup _ _ _ B)|eassumption|eassumption]).
     (* files of p1 = workspace files of the new disk *)
-    assert (Hfiles : p_files p1 = dfiles A dk).
-    { apply sorted_ext; [exact C2|apply dfiles_sorted|]. intros g. rewrite C1, dfiles_in, (gp_files _ _ _ G), dfiles_in.
+    assert (Hfiles : p_files p1 = dfiles A mem dk).
+    { apply sorted_ext; [exact C2|apply dfiles_sorted|]. intros g. rewrite C1, dfiles_in, (gp_files _ _ _ _ G), dfiles_in.
       destruct (in_dec N.eq_dec g (map fst evs)) as [Hin|Hnin].
-      - apply in_map_iff in Hin as [[g' k] [E Hin]]. cbn [fst] in E. subst g'. pose proof (b_indir _ _ _ B g k Hin) as Hd. destruct k.
+      - apply in_map_iff in Hin as [[g' k] [E Hin]]. cbn [fst] in E. subst g'. pose proof (Hmem _ (b_indir _ _ _ B g k Hin)) as Hd. destruct k.
         + split; [intros _; split; [exact Hd|apply (b_c _ _ _ B); exact Hin]|intros _; right; exact Hin].
         + destruct (b_m _ _ _ B g Hin) as [M1 M2]. split; [intros _; auto|]. intros _. left. split; [auto|].
           intros HD. pose proof (Hone g _ _ Hin HD). discriminate.
@@ -337,8 +339,8 @@ Section Batch.
       assert (Hnd : ~ In (g, KDeleted) evs) by (intros HD; destruct Hg as [Hg|Hg]; pose proof (Hone g _ _ Hg HD); discriminate).
       rewrite (Hold1 g Hnd) in Hs.
       destruct (in_dec N.eq_dec g (p_files p)) as [Hf|Hf].
-      - destruct (gp_in _ _ _ G g Hf) as [t0 [s0 [_ [Hs0' Hg0]]]]. rewrite Hs in Hs0'. injection Hs0' as <-. exists t0. exact Hg0.
-      - rewrite (gp_out _ _ _ G g Hf) in Hs. discriminate. }
+      - destruct (gp_in _ _ _ _ G g Hf) as [t0 [s0 [_ [Hs0' Hg0]]]]. rewrite Hs in Hs0'. injection Hs0' as <-. exists t0. exact Hg0.
+      - rewrite (gp_out _ _ _ _ G g Hf) in Hs. discriminate. }
     { intros g t Hg Hd. apply Hagain_in in Hg.
       assert (Hnd : ~ In (g, KDeleted) evs) by (intros HD; destruct Hg as [Hg|Hg]; pose proof (Hone g _ _ Hg HD); discriminate).
       rewrite (empty_hit_p_ext p p1) by (apply Hold1; exact Hnd).
@@ -367,7 +369,7 @@ Section Batch.
       { destruct (in_dec N.eq_dec g (h_again h)) as [Ha|Ha].
         - destruct (F6 g Ha) as [t [s' [H1 [H2 H3]]]]. exists t, s'. auto.
         - rewrite F5 by exact Ha. apply C1 in Hg. destruct Hg as [[Hg Hnd]|HC]; [|exfalso; apply Ha; apply Hagain_in; auto].
-          rewrite (Hold1 g Hnd). destruct (gp_in _ _ _ G g Hg) as [t [s [H1 [H2 H3]]]]. exists t, s.
+          rewrite (Hold1 g Hnd). destruct (gp_in _ _ _ _ G g Hg) as [t [s [H1 [H2 H3]]]]. exists t, s.
           assert (Hnin : ~ In g (map fst evs)).
           { intros Hin. apply in_map_iff in Hin as [[g' k] [E Hin]]. cbn [fst] in E. subst g'. destruct k;
               [apply Ha; apply Hagain_in; auto|apply Ha; apply Hagain_in; auto|contradiction]. }
@@ -387,17 +389,17 @@ Section Batch.
       assert (Hna : ~ In g (h_again h)).
       { intros Ha. apply Hagain_in in Ha. apply Hg. apply C1. destruct Ha as [Ha|Ha]; [right; exact Ha|].
         left. split.
-        - rewrite (gp_files _ _ _ G). apply dfiles_in. split; [apply (b_indir _ _ _ B g _ Ha)|apply (b_m _ _ _ B g Ha)].
+        - rewrite (gp_files _ _ _ _ G). apply dfiles_in. split; [apply Hmem; apply (b_indir _ _ _ B g _ Ha)|apply (b_m _ _ _ B g Ha)].
         - intros HD. pose proof (Hone g _ _ Ha HD). discriminate. }
       assert (Hnone : aget (p_fsm (fst pc)) g = None).
       { rewrite F5 by exact Hna. destruct (in_dec ev_eq_dec (g, KDeleted) evs) as [HD|HD].
         - apply C4. exact HD.
-        - rewrite (Hold1 g HD). apply (gp_out _ _ _ G). intros Hf. apply Hg. apply C1. left. auto. }
+        - rewrite (Hold1 g HD). apply (gp_out _ _ _ _ G). intros Hf. apply Hg. apply C1. left. auto. }
       unfold p4. destruct (is_nil (h_refer h)).
       - cbn [p3 set_lru p_fsm]. exact Hnone.
       - rewrite reanalyse_all_fsm. cbn [p3 set_lru p_fsm]. rewrite Hnone. reflexivity. }
     assert (Hsup4 : forall g, In g (p_files p4) -> In g (p_index p4)).
-    { intros g. rewrite P4a, P4b, C1, C3. intros [[H Hn]|H]; [|left; exact H]. right. split; [apply (gp_isup _ _ _ G); exact H|auto]. }
+    { intros g. rewrite P4a, P4b, C1, C3. intros [[H Hn]|H]; [|left; exact H]. right. split; [apply (gp_isup _ _ _ _ G); exact H|auto]. }
     destruct (negb (snd pc) && negb (h_all h)) eqn:Equiet; cbn [fst snd].
     - (* nothing re-analysed, no file created or deleted: only Changed events, all taking the shortcut *)
       apply andb_true_iff in Equiet as [Eq1 Eq2]. apply negb_true_iff in Eq1, Eq2.
@@ -428,9 +430,9 @@ Section Batch.
         * exact Hsup4.
         * exact Hin4.
         * exact Hout4.
-        * intros g r t Hg Hr Hin. rewrite Hfiles4 in *. rewrite Hres in Hr. apply (gp_nostale _ _ _ G g r t Hg Hr Hin).
-        * rewrite P4c, Hfiles4. apply (gp_tincl _ _ _ G).
-        * intros g. rewrite P4d, Hfiles4, Hpsums. apply (gp_terrs _ _ _ G).
+        * intros g r t Hg Hr Hin. rewrite Hfiles4 in *. rewrite Hres in Hr. apply (gp_nostale _ _ _ _ G g r t Hg Hr Hin).
+        * rewrite P4c, Hfiles4. apply (gp_tincl _ _ _ _ G).
+        * intros g. rewrite P4d, Hfiles4, Hpsums. apply (gp_terrs _ _ _ _ G).
       + intros _ g. unfold errs_of, first_errs. rewrite Hres, P4d. reflexivity.
     - (* something changed: the third pass runs *)
       assert (Hthird : h_third h = true).
@@ -441,8 +443,8 @@ Section Batch.
         destruct (h_again h) as [|x r] eqn:Ea.
         { unfold pc in Eq. cbn in Eq. discriminate. }
         pose proof (proj1 (Hagain_in x) (or_introl eq_refl)) as Hx. destruct Hx as [Hx|Hx]; [pose proof (existsb_not_m_false evs Enm x _ Hx); discriminate|].
-        apply existsb_exists. exists (x, KChanged). split; [exact Hx|]. cbn [fst]. rewrite (gp_tincl _ _ _ G). apply fmem_in.
-        rewrite (gp_files _ _ _ G). apply dfiles_in. split; [apply (b_indir _ _ _ B x _ Hx)|apply (b_m _ _ _ B x Hx)]. }
+        apply existsb_exists. exists (x, KChanged). split; [exact Hx|]. cbn [fst]. rewrite (gp_tincl _ _ _ _ G). apply fmem_in.
+        rewrite (gp_files _ _ _ _ G). apply dfiles_in. split; [apply Hmem; apply (b_indir _ _ _ B x _ Hx)|apply (b_m _ _ _ B x Hx)]. }
       rewrite Hthird. split; [|discriminate]. intros Hns. apply good_after_third.
       + rewrite P4a. exact Hfiles.
       + exact Hsup4.
